@@ -359,6 +359,18 @@ _LET = re.compile(r'^let (?:mut )?_(\d+): (.+);$', re.S)
 _BB = re.compile(r'^bb(\d+)(?: \(cleanup\))?: \{$')
 _DEBUG = re.compile(r'^debug (\S+) => (.+);$')
 
+def _head_const(head):
+    m = re.match(r'^(?:const|static(?: mut)?) ', head)
+    if not m or not head.rstrip().endswith('= {'): return None
+    rest = head[m.end():].rstrip()[:-3].rstrip()
+    depth = 0
+    for i, c in enumerate(rest):
+        if c in '<([': depth += 1
+        elif c in '>)]' and not (c == '>' and rest[i - 1] == '-'): depth -= 1
+        elif depth == 0 and rest.startswith(': ', i):
+            return rest[:i], rest[i + 2:]
+    return None
+
 class Module:
     """All bodies of one dump; bodies are parsed lazily."""
     def __init__(self, text):
@@ -391,11 +403,11 @@ class Module:
                 self.raw[name] = ('fn', m.group(2), m.group(3), body)
                 self.order.append(name)
             else:
-                m = _HEAD_CONST.match(head)
+                m = _head_const(head)
                 if not m:
                     continue
-                name = m.group(1)
-                self.raw[name] = ('const', '', m.group(2), body)
+                name = m[0]
+                self.raw[name] = ('const', '', m[1], body)
                 self.order.append(name)
             if 'alloc' in tail:
                 self._allocs(tail)
